@@ -77,7 +77,8 @@ Proof.
     destruct (replace_nth i _ p) as [tp|] eqn:E; try discriminate. intros H Hy. inversion H; subst. clear H.
     apply replace_nth_split in E. destruct E as [l1 [x [l2 [ys [E1 [E2 [E3 E4]]]]]]]. rewrite E4 in Hy.
     destruct x; try discriminate. destruct count; try discriminate. destruct l; try discriminate. destruct neg; try discriminate.
-    inversion E2; subst. apply same_outcome_eq. apply (repeat_unroll_lit enc l1 l2). exact Hy.
+    inversion E2; subst. apply andb_true_iff in Hy. destruct Hy as [Hc Hy]. apply Z.leb_le in Hc.
+    apply same_outcome_eq. apply (repeat_unroll_lit enc l1 l2); assumption.
   - (* insert *)
     destruct (replace_nth i _ p) as [tp|] eqn:E; try discriminate. intros H Hy. inversion H; subst. clear H.
     apply replace_nth_split in E. destruct E as [l1 [x [l2 [ys [E1 [E2 [E3 E4]]]]]]]. rewrite E4 in Hy.
